@@ -551,7 +551,7 @@ func histories(c *vlib.Ctx) int {
 func main() {
 	c := vlib.Init("exploration")
 	keyLists := [][]string{{}, {"a"}, {"b", "a"}}
-	vals := []string{"x", "y", "z1"}
+	vals := []string{"x", "y%d", "z1"} // one value holds a printf verb
 	var singles []stores.MetricSpec
 	for _, sh := range stores.Shapes {
 		for _, ks := range keyLists {
@@ -605,5 +605,5 @@ func main() {
 	c.Set("histories", histories(c))
 	c.Set("stores", len(jobs))
 	c.Assume = []string{"label values are free of blanks and of the separators of the target formats, as the property requires", "records of metric kinds outside a format's scope (text; histograms for statsd/collectd) are neither required nor forbidden"}
-	c.Finish("all single-metric stores over 7 kind/type shapes × key lists {[], [a], [b,a]} × all label-set contents of size<=2 over {x,y,z1} × value rotations (ints, floats incl. non-finite, strings, histogram observation sets), and pairs with a second program's metric; × prefix {\"\", pfx.} × hostname {h, h.example}; formats varz, graphite (HTTP and push), statsd, collectd, JSON (generic decode + mtail's own decoder for integer stores); each output parsed by an independent parser: exactly one well-formed record per (metric, label set) in scope carrying that label set's value and timestamp; plus all histories of length 6 (thorough 7) over {set t, remove t, export every format} × 3 label tuples on one live metric (int counter, histogram; thorough: float gauge), ending in an export. distinct_nontrivial = distinct (store, configuration)")
+	c.Finish("all single-metric stores over 7 kind/type shapes × key lists {[], [a], [b,a]} × all label-set contents of size<=2 over {x,y%d,z1} × value rotations (ints, floats incl. non-finite, strings, histogram observation sets), and pairs with a second program's metric; × prefix {\"\", pfx.} × hostname {h, h.example}; formats varz, graphite (HTTP and push), statsd, collectd, JSON (generic decode + mtail's own decoder for integer stores); each output parsed by an independent parser: exactly one well-formed record per (metric, label set) in scope carrying that label set's value and timestamp; plus all histories of length 6 (thorough 7) over {set t, remove t, export every format} × 3 label tuples on one live metric (int counter, histogram; thorough: float gauge), ending in an export. distinct_nontrivial = distinct (store, configuration)")
 }
